@@ -75,6 +75,19 @@ void sweep_crc(const char *expect) {
   size_t maxlen = thorough() ? 2000 : 300;
   for (size_t L = 3; L <= maxlen && !g_capped; L++) for (int p = 0; p < kPatterns; p++) { std::vector<uint8_t> v = pattern(p, L); crc_one("P:" + std::to_string(p) + ":" + std::to_string(L), v.data(), L); }
   sample("crc/checksum patterned lengths 3.." + std::to_string(maxlen) + " x 6 patterns, all strings of length<=2; crc seeds {default,0,other}");
+  // accumulator boundaries: inputs whose 8/16-bit word sums cross 2^16 and 2^32 (a 32-bit accumulator with deferred carry folding
+  // is wrong only from 131076 bytes of 0xFF on), compared with the bitwise references only
+  const size_t big[] = {255, 256, 257, 258, 65534, 65535, 65536, 65537, 65538, 131070, 131072, 131074, 131076, 131078, 131080, 196610, 262144, 262146, 524290, 1048576, 1048577};
+  for (size_t L : big) for (int fill = 0; fill < 3 && !g_capped; fill++) {
+    if (out_of_time()) break;
+    std::vector<uint8_t> v(L); for (size_t i = 0; i < L; i++) v[i] = fill == 0 ? 0xFF : fill == 1 ? (uint8_t)(0xF0 | (i & 0xF)) : (uint8_t)((i * 131 + (i >> 8) * 7) & 0xFF);
+    C.states++; C.transitions += 4; Ex in(v.data(), L); char d[96]; snprintf(d, sizeof d, "big: %zu bytes, fill #%d", L, fill);
+    uint16_t c16 = tbox::util::CalcCheckSum16(in.p, L), e16 = ref_cs16(v.data(), L); if (c16 != e16) viol("checksum16-differs-from-rfc1071-reference", std::string(d) + " got=" + std::to_string(c16) + " want=" + std::to_string(e16));
+    uint8_t c8 = tbox::util::CalcCheckSum8(in.p, L), e8 = ref_cs8(v.data(), L); if (c8 != e8) viol("checksum8-differs-from-ones-complement-reference", std::string(d) + " got=" + std::to_string(c8) + " want=" + std::to_string(e8));
+    if (tbox::util::CalcCrc16(in.p, L) != ref_crc16(v.data(), L, kSeed16[0])) viol("crc16-differs-from-bitwise-poly-0x1021-reference", d);
+    if (tbox::util::CalcCrc32(in.p, L) != ref_crc32(v.data(), L, kSeed32[0])) viol("crc32-differs-from-bitwise-poly-0x04C11DB7-reference", d);
+  }
+  sample("crc/checksum large inputs: 21 lengths 255..1048577 around the 2^16 / 2^32 word-sum boundaries x 3 fills");
 }
 
 // ================================================================== MD5
